@@ -185,6 +185,11 @@ Wave 3 (loops; groups `line` `fold` `text` -> Gen/BodiesLine.lean, BodiesFold.le
                'result': names}); `[E for a, b, _ in xs]` / `for i, (a, b, ..) in enumerate(xs)` over tuples, `xs[i]`, `t[k]`;
                nested loops with their own break (group tz); a local that is `False` or an int (`FalseOrInt`: Option Int) and
                `assert x is not False` on it, which IS evaluated (AssertionError).
+  wave 9       CLOSURES: a target `outer.inner` is a def directly in the body of a module-level def, bound once; its declared free
+               variables must be parameters of `outer` that nothing rebinds: they are parameters of the definition (`Target.free`).  A
+               function without a class whose first parameter is `self` (a property accessor) with self_type 'State:S'; `sibling(self)`
+               of a closure translated earlier rebinds `self`; bare `return` of a state; `raise TypeError(..)`; `x in self.<attr>` on a
+               declared sequence of str; one mutating method declared per arity (`'self.pop/1'`, `'self.pop/2'`) (group sedesc).
   parameters   the order of the generated parameters follows their first use in the source: apply the definitions BY NAME
                (`f (last_ack := ..) (snooze_until := ..)`), never positionally - two parameters of one type could
                otherwise change places together with the source and no proof or test would notice.
@@ -281,8 +286,8 @@ LEAN_KEYWORDS = {'at', 'do', 'end', 'from', 'fun', 'have', 'in', 'let', 'open', 
 #                                an rtype that is not a translator type (e.g. 'P') is an OPAQUE type parameter of the definition
 #   ('expr', param, locals, rtype)   the key is a whole expression (as `ast.unparse` prints it): a function parameter
 #                                applied to the named local variables; the expression itself is not translated
-Target = namedtuple('Target', 'file cls fn lean self_type self_attrs externals optional group args fragment ret locals',
-                    defaults=('enc', None, None, None, None))
+Target = namedtuple('Target', 'file cls fn lean self_type self_attrs externals optional group args fragment ret locals free',
+                    defaults=('enc', None, None, None, None, None))
 FROM_ICAL = {
     'Contentlines.from_ical': ('fun', 'lines_from_ical', ['Str'], 'StrList'),
     'line.parts': ('ptuple', 'parts', ['line'], ['Str', 'P', 'Str']),
@@ -665,6 +670,26 @@ TARGETS = [
     Target('cal.py', 'Todo', 'end', 'Todo_end_full', None, {}, SE_GET_TODO, False, 'se', None, None, 'OptD'),
     Target('cal.py', 'Event', 'duration', 'Event_duration', None, {}, dict(SE_GET_EVENT, **SE_SUB), False, 'se', None, None, 'TDS'),
     Target('cal.py', 'Todo', 'duration', 'Todo_duration', None, {}, dict(SE_GET_TODO, **SE_SUB), False, 'se', None, None, 'TDS'),
+    # ---- wave 9 (C16): the setter / deleter closures of `create_single_property` and `_set_duration` / `_del_duration`.  `self` is an
+    # opaque state `S` (the component as a mapping); the free variables of the closures (`prop`, `value_type`, `vProp`) are
+    # parameters; the assigned object is an opaque `AV` or None; `isinstance(value, value_type)`, the wrapper `vProp(value)` /
+    # `vDuration(value)` (may raise), `self[k] = v`, `self.pop(k)` / `self.pop(k, None)` and the class attribute `exclusive` are parameters
+    Target('cal.py', None, 'create_single_property.p_del', 'p_del', 'State:S', {},
+           {'self.pop': ('mut', 'pop', ['Str'])}, False, 'sedesc', {}, None, 'S', None, {'prop': 'Str'}),
+    Target('cal.py', None, 'create_single_property.p_set', 'p_set', 'State:S', {'exclusive': ('exclusive', 'StrList')},
+           {'isinstance(value, value_type)': ('expr', 'is_instance', ['value', 'value_type'], 'Bool'),
+            'vProp(value)': ('pexpr', 'wrap', ['vProp', 'value'], 'SV'),
+            'self[]=': ('setitem', 'set_item', 'Str', 'SV'),
+            'self.pop': ('mut', 'pop_default', ['Str', 'None'])}, False, 'sedesc', {'value': 'Opt:AV'}, None, 'S', None,
+           {'prop': 'Str', 'value_type': 'VT', 'vProp': 'VP'}),
+    Target('cal.py', None, '_set_duration', 'set_duration', 'State:S', {},
+           {'isinstance(value, timedelta)': ('expr', 'is_timedelta', ['value'], 'Bool'),
+            'vDuration(value)': ('pexpr', 'wrap_duration', ['value'], 'SV'),
+            'self[]=': ('setitem', 'set_item', 'Str', 'SV'),
+            'self.pop/1': ('mut', 'pop', ['Str']),
+            'self.pop/2': ('mut', 'pop_default', ['Str', 'None'])}, False, 'sedesc', {'value': 'Opt:AV'}, None, 'S'),
+    Target('cal.py', None, '_del_duration', 'del_duration', 'State:S', {},
+           {'self.pop': ('mut', 'pop', ['Str'])}, False, 'sedesc', {}, None, 'S'),
 ] + [   # ---- CaselessDict (C17): the delegating methods; `to_unicode` is a function parameter
     Target('caselessdict.py', 'CaselessDict', m, 'cd_' + m.strip('_'), 'Store', {},
            {'to_unicode': ('fun', 'to_unicode', ['Str'], 'Str'),
@@ -831,6 +856,36 @@ def find_fragment(func):
                     a -= 1
                 return stmts[a:k + 1]
     return None
+
+
+def find_closure(tree, dotted, free):
+    """wave 9: the nested function `outer.inner`.  `inner` must be bound exactly once in `outer` (by that def, directly in
+    its body); the declared free variables must be parameters of `outer` that nothing in `outer` (the closures included)
+    rebinds, so that inside the closure each stands for the value the factory was called with."""
+    outer_name, inner_name = dotted.split('.')
+    outer = X.find_func(tree, outer_name)
+    defs = [n for n in outer.body if isinstance(n, ast.FunctionDef) and n.name == inner_name]
+    binds = [n for n in ast.walk(outer) if n is not outer and
+             ((isinstance(n, (ast.FunctionDef, ast.ClassDef, ast.AsyncFunctionDef)) and n.name == inner_name)
+              or (isinstance(n, ast.Name) and n.id == inner_name and isinstance(n.ctx, (ast.Store, ast.Del)))
+              or (isinstance(n, ast.arg) and n.arg == inner_name)
+              or (isinstance(n, (ast.Global, ast.Nonlocal)) and inner_name in n.names))]
+    if len(defs) != 1 or len(binds) != 1:
+        raise Untranslatable(f'line {outer.lineno}: closure `{dotted}`: `{inner_name}` is not bound exactly once, by a def directly in `{outer_name}`')
+    a = outer.args
+    params = [x.arg for x in a.posonlyargs + a.args + a.kwonlyargs]
+    for n in free:
+        if n not in params:
+            raise Untranslatable(f'line {outer.lineno}: closure `{dotted}`: the free variable `{n}` is no parameter of `{outer_name}`')
+        for m in ast.walk(outer):
+            if (isinstance(m, ast.Name) and m.id == n and isinstance(m.ctx, (ast.Store, ast.Del))) \
+                    or (isinstance(m, (ast.Global, ast.Nonlocal)) and n in m.names) \
+                    or (isinstance(m, ast.arg) and m.arg == n and m not in a.posonlyargs + a.args + a.kwonlyargs) \
+                    or (isinstance(m, (ast.FunctionDef, ast.ClassDef)) and m.name == n) \
+                    or (isinstance(m, ast.ExceptHandler) and m.name == n) \
+                    or (isinstance(m, ast.alias) and (m.asname or m.name) == n):
+                raise Untranslatable(f'line {getattr(m, "lineno", outer.lineno)}: closure `{dotted}`: the free variable `{n}` is rebound in `{outer_name}`')
+    return defs[0]
 
 
 def has_return(nodes):
@@ -1500,6 +1555,10 @@ class Fn:
             lst = '([' + ', '.join(e.lean for e in b.elts) + '] : List Int)'
             return V(f'({neg}{lst}.contains {a.lean})', 'Bool', None)
         if a.type == 'Str' and b.type == 'StrList' and k in ('In', 'NotIn') and isinstance(node.comparators[0], ast.List):
+            return V(f'({"" if k == "In" else "!"}{b.lean}.contains {a.lean})', 'Bool', None)
+        if a.type == 'Str' and b.type == 'StrList' and k in ('In', 'NotIn') and isinstance(node.comparators[0], ast.Attribute) \
+                and self.t.group == 'sedesc':
+            # wave 9: `x in self.<attr>`, the attribute a declared sequence of str (list or tuple): membership by `==`
             return V(f'({"" if k == "In" else "!"}{b.lean}.contains {a.lean})', 'Bool', None)
         if a.type == 'Str' and b.type == 'Tuple' and k in ('In', 'NotIn') and all(e.lits is not None for e in b.elts):
             lst = '([' + ', '.join(e.lean for e in b.elts) + '] : List Str)'
@@ -2338,6 +2397,28 @@ class Fn:
             if d is not None and d.fields is not None:
                 ct = next(t for t in TARGETS if (t.cls, t.fn) == (self.t.cls, s.value.func.attr) and t.group == self.t.group)
                 return self.call_fields_method(s, d, ct, rest, env, tail)
+        if isinstance(s, ast.Return) and s.value is None and (self.t.self_type or '').startswith('State:') and 'self' in env \
+                and not self.loopctx and self.t.group == 'sedesc':
+            self.rtype = self.t.self_type[6:]       # wave 9: bare `return` of a method that leaves a state: the state as it is now
+            return [self.ret(env['self'].lean)]
+        if isinstance(s, ast.Expr) and isinstance(s.value, ast.Call) and isinstance(s.value.func, ast.Name) \
+                and '.' in self.t.fn and self.t.cls is None and s.value.func.id not in env \
+                and (None, self.t.fn.split('.')[0] + '.' + s.value.func.id) in self.registry \
+                and (self.t.self_type or '').startswith('State:') and 'self' in env:
+            # wave 9: `sibling(self)` as a statement, `sibling` another closure of the same factory translated earlier (find_closure
+            # checked that the name is bound once, by its def): `self` is rebound to the state it leaves; its free variables and
+            # externals are ours
+            d = self.registry[(None, self.t.fn.split('.')[0] + '.' + s.value.func.id)]
+            if s.value.keywords or [ast.unparse(x) for x in s.value.args] != ['self'] or d.rtype != self.t.self_type[6:] \
+                    or [p[1] for p in d.params[:d.nargs]] != [self.t.self_type[6:]]:
+                self.fail(s, f'call `{ast.unparse(s.value)[:50]}` of a sibling closure (only `f(self)` of one that takes `self` alone)')
+            obj = env['self']
+            ext = [self.param(*p).lean for p in d.params[d.nargs:]]
+            lean = ' '.join([d.lean, obj.lean] + ext)
+            new = self.hoist(s, lean, obj.type) if d.monadic else V(f'({lean})', obj.type, None)
+            lines = self.take_pre()
+            env, line = self.bind(env, 'self', new)
+            return lines + [line] + self.block(rest, env, tail)
         if isinstance(s, ast.Return):
             if s.value is None:
                 self.fail(s, 'bare return')
@@ -2436,6 +2517,9 @@ class Fn:
         if isinstance(s, ast.Expr) and isinstance(s.value, ast.Call):
             callee = ast.unparse(s.value.func)
             e = self.t.externals.get(callee)
+            if e is None and not s.value.keywords:      # wave 9: one method called with different numbers of arguments: `callee/N`
+                callee = f'{callee}/{len(s.value.args)}'
+                e = self.t.externals.get(callee)
             if e is not None and e[0] in ('mut', 'mutlast'):       # a method that mutates an object in place
                 return self.mutate(s, callee, e, rest, env, tail)
         if isinstance(s, ast.Assign) and len(s.targets) == 1 and isinstance(s.targets[0], ast.Attribute) \
@@ -2553,6 +2637,11 @@ class Fn:
                 if not self.monadic:
                     raise NeedMonad()
                 return [f'throw Exc.{SUBVALUE[e.id]}']
+            if isinstance(e, ast.Name) and e.id == 'TypeError' and 'TypeError' not in self.modnames and self.t.group == 'sedesc' \
+                    and isinstance(s.exc, ast.Call) and s.cause is None:
+                if not self.monadic:        # wave 9: `raise TypeError(..)` (the builtin; the message is not part of the model)
+                    raise NeedMonad()
+                return ['throw Exc.typeError']
             if not (isinstance(e, ast.Name) and e.id == 'ValueError' and 'ValueError' not in self.modnames):
                 self.fail(s, f'`{ast.unparse(s)[:50]}` (only `raise ValueError(...)` and its icalendar subclasses)')
             if not self.monadic:
@@ -3451,9 +3540,12 @@ class Fn:
                 if isinstance(n, ast.Call) and isinstance(n.func, ast.Attribute) and isinstance(n.func.value, ast.Name) \
                         and n.func.value.id in env and env[n.func.value.id].type.startswith('Set:') and n.func.value.id not in asg:
                     asg.append(n.func.value.id)        # wave 8: a method call on a set changes it
-                if isinstance(n, ast.Call) and self.t.externals.get(ast.unparse(n.func), ('',))[0] == 'mut' and isinstance(n.func, ast.Attribute) \
+                if isinstance(n, ast.Call) and (self.t.externals.get(ast.unparse(n.func)) or self.t.externals.get(f'{ast.unparse(n.func)}/{len(n.args)}', ('',)))[0] == 'mut' and isinstance(n.func, ast.Attribute) \
                         and isinstance(n.func.value, ast.Name) and n.func.value.id == 'self' and 'self' in env and 'self' not in asg:
                     asg.append('self')      # wave 8: a declared mutating method of `self`
+                if isinstance(n, ast.Call) and isinstance(n.func, ast.Name) and '.' in self.t.fn and self.t.cls is None and 'self' in env \
+                        and (None, self.t.fn.split('.')[0] + '.' + n.func.id) in self.registry and 'self' not in asg:
+                    asg.append('self')      # wave 9: a sibling closure called on `self`
                 if isinstance(n, ast.Call) and self.t.externals.get(ast.unparse(n.func), ('',))[0] in ('mut', 'mutlast'):
                     root = n.func
                     while isinstance(root, ast.Attribute):
@@ -3532,6 +3624,8 @@ class Fn:
         if t.fn == '__new__' and decos == []:
             first = ['cls']       # an implicit static method whose first parameter is the class
         names = [x.arg for x in a.args]
+        if t.cls is None and (t.self_type or '').startswith('State:') and decos == [] and names[:1] == ['self']:
+            first = ['self']      # wave 9: a module-level function / closure whose first parameter is the object (property(fget, fset, fdel))
         # wave 8: `*args` / `**kwargs` are accepted when the target declares them (`'*args'`, `'**kwargs'`) with a type
         want_var = next((n[1:] for n in (t.args or {}) if n.startswith('*') and not n.startswith('**')), None)
         want_kw = next((n[2:] for n in (t.args or {}) if n.startswith('**')), None)
@@ -3582,6 +3676,10 @@ class Fn:
             else:
                 env[n] = self.param(lname(n), typ)
         self.nargs = len(self.used)
+        for n, typ in (t.free or {}).items():       # wave 9: free variables of a closure: parameters (checked by find_closure)
+            if n in env:
+                self.fail(self.func, f'the free variable `{n}` is also an argument')
+            env[n] = self.param(lname(n), typ)
         for f in (self.fields or []):       # the attributes written: their values before the call are parameters
             env['self__' + f] = self.param(*t.self_attrs[f])
 
@@ -3850,6 +3948,14 @@ HEADERS['tz'] = ['/- GENERATED by tools/py2lean.py (called from tools/extract.py
                  '   is `False` or a timedelta is `Option Int`; `xs[i]`, `range`, `dst[name]` are partial (ICal/Model/PyRTTz.lean). -/',
                  'import ICal.Model.PyRTTz', 'set_option linter.unusedVariables false',
                  'namespace ICal.Gen.BodiesTz', 'open ICal ICal.PyRT', '']
+NAMESPACE['sedesc'] = 'ICal.Gen.BodiesSEDesc'
+HEADERS['sedesc'] = ['/- GENERATED by tools/py2lean.py (called from tools/extract.py) from the closures `p_set` / `p_del` of',
+                     '   `create_single_property` and from `_set_duration` / `_del_duration` of src/icalendar/cal.py. Do not edit: regenerated on',
+                     '   every run; lean/ICal/Lemmas/BodiesSEDesc.lean proves each equal to the hand-written model (ICal/Model/StartEnd.lean:',
+                     '   `pSet`, `setDuration`, the deleter step).  `self` is an opaque state: what is done to it is a parameter and the function',
+                     '   returns the state it leaves; the free variables of a closure are parameters; a closure called on `self` is a call. -/',
+                     'import ICal.Model.PyRT', 'set_option linter.unusedVariables false',
+                     'namespace ICal.Gen.BodiesSEDesc', 'open ICal ICal.PyRT', '']
 GROUP_USES = {'tzuse': ['ser', 'walk']}      # groups whose translated functions this group calls (imported, qualified names)
 NAMESPACE['walk'] = 'ICal.Gen.BodiesWalk'
 HEADERS['walk'] = ['/- GENERATED by tools/py2lean.py (called from tools/extract.py) from Component._walk / walk of',
@@ -3892,7 +3998,10 @@ def translate(src_dir, group='enc', registry=None):
         qual = f'{t.file[:-3]}.' + (f'{t.cls}.' if t.cls else '') + t.fn
         try:
             cls = X.find_class(trees[t.file], t.cls) if t.cls else None
-            func = X.find_func(trees[t.file], t.fn, t.cls)
+            if t.cls is None and '.' in t.fn:       # wave 9: a CLOSURE `outer.inner` (a def directly in the body of a module-level def)
+                func = find_closure(trees[t.file], t.fn, t.free or {})
+            else:
+                func = X.find_func(trees[t.file], t.fn, t.cls)
         except X.Untranslatable as e:
             raise Untranslatable(f'{qual}: {e}')
         fp = X.fingerprint(func)
@@ -3939,6 +4048,9 @@ def translate(src_dir, group='enc', registry=None):
                 pass
             elif e[0] == 'expr':
                 src_of[e[1]] = f'the expression {f[:60]}.. as a function of ({", ".join(e[2])}) (external, not translated)'
+        src_of.update({lname(a): f'free variable {a} of the closure (a parameter of {t.fn.split(".")[0]})' for a in (t.free or {})})
+        if group == 'sedesc':
+            src_of['self_'] = 'self: the object as the call finds it'
         src_of['self'] = f'self (a {t.cls} is {dict(Int="an int", Str="a str").get(t.self_type)})'
         pdoc = '; '.join(f'`{p}` = `{src_of.get(p, "parameter of a callee")}` ({PARAM_DOC.get(ty, ty)})'
                          for p, ty in fn.used) or 'none'
@@ -3956,7 +4068,7 @@ def translate(src_dir, group='enc', registry=None):
         sig = ''.join(f' ({p} : {lean_type(ty)})' for p, ty in fn.used)
         opaque = sorted({e[3] for e in t.externals.values() if isinstance(e[0], str) and e[0] in ('pfun', 'expr') and e[3] not in LEAN_TYPE and e[3] != 'Object' and ':' not in e[3]})
         opaque = sorted(set(opaque) | {o for o in ('AT',) if re.search(r'\b' + o + r'\b', sig)})
-        if group in ('parse', 'alarm', 'recur', 'add', 'cdmeta', 'tzuse', 'tz') or t.lean in ('vMonth_new', 'vDDDLists_to_ical'):
+        if group in ('parse', 'alarm', 'recur', 'add', 'cdmeta', 'tzuse', 'tz', 'sedesc') or t.lean in ('vMonth_new', 'vDDDLists_to_ical'):
             opaque = opaque_types([lean_type(ty) for _, ty in fn.used] + [fn.rtype_lean or lean_type(fn.rtype)])
         sig = ''.join(f' {{{o} : Type}}' for o in opaque) + ''.join(f' [BEq {o}]' for o in sorted(getattr(fn, 'setelts', ())) if o in opaque) + sig
         rt = fn.rtype_lean or lean_type(fn.rtype)
